@@ -24,6 +24,10 @@ MANIFEST = {
 }
 
 
+# proof modules about the specification, checked by tlapm on every run (started by the driver next to leg A)
+TLAPS = [('RejectProofs.tla', ['Reject.tla'])]
+
+
 def leg_a(ctx):
     return [{"spec": "MC_Reject.tla", "cfg": "MC_Reject_neg.cfg", "expect": "violates:RejectsInvalid", "workers": 4,
              "what": "a design that silently prefers the permeate temperature when both conditions are given"}]
@@ -59,7 +63,6 @@ def run(ctx, pool):
     }
     res["required_events"] = {"Try": hist.get("Try", 0)}
     res["trace_lookup"] = lambda v: [v["record"]]
-    core.attach_tlaps(ctx, res, [('RejectProofs.tla', ['Reject.tla'])])
     return res
 
 
